@@ -15,7 +15,7 @@ from . import c02
 
 LEVEL = "fault_enumeration"
 RULE = ("cases = generated directory trees (<= 12 files, depth <= 4, names with spaces / Unicode / leading dots / no "
-        "extension, empty sub-directories, pre-existing empty or populated output directory, single-file input) with "
+        "extension, empty sub-directories, pre-existing empty or populated output directory, an output directory newly created INSIDE the input directory, single-file input) with "
         "mixed multi-feature content; faults = {undecodable bytes, output path occupied by a directory, output parent "
         "occupied by a file}. For trees of <= 6 files EVERY fault kind at EVERY position and EVERY pair of positions is "
         "run (exhaustive for that tree); larger trees sample. Oracles: expected path set computed from the generated "
@@ -47,6 +47,8 @@ def cases(ctx):
                "faults": "exhaustive", "entry": False, "cli": False, "strace": False}
     for i in range(ctx.per_shard(ctx.pick(24, 2400))):
         yield {"kind": "single", "seed": rng.getrandbits(32), "feats": rng.choice(subs)}
+    for i in range(ctx.per_shard(ctx.pick(12, 1200))):
+        yield {"kind": "nested", "seed": rng.getrandbits(32), "feats": rng.choice(subs), "nfiles": rng.randint(1, 8)}
     if ctx.shard == 0:
         yield {"kind": "tree", "seed": rng.getrandbits(32), "feats": ["pwd", "ip"], "nfiles": 4, "faults": "none",
                "entry": True, "cli": True, "strace": True}
@@ -178,6 +180,8 @@ def check_case(ctx, case):
             return _tree(ctx, case, nc, wd)
         if case["kind"] == "single":
             return _single(ctx, case, nc, wd)
+        if case["kind"] == "nested":
+            return _nested(ctx, case, nc, wd)
         raise HarnessError("unknown kind")
     finally:
         shutil.rmtree(wd, ignore_errors=True)
@@ -533,6 +537,47 @@ def _single(ctx, case, nc, wd):
         ctx.violation(case, "entry-points-disagree:anonymize_io", "%s: file output differs from the stream API" % tag)
         return
     ctx.distinct(("single", case["seed"], tuple(feats)))
+
+
+def _nested(ctx, case, nc, wd):
+    """The output directory is a NEW directory inside the input directory (-i configs -o configs/anonymized):
+    exactly the input files are processed - the run must not pick up what it has just written."""
+    rng = random.Random(case["seed"])
+    opts = make_opts(rng)
+    feats = case["feats"]
+    tree = gen_tree(rng, opts, case["nfiles"])
+    src = os.path.join(wd, "in")
+    materialise(tree, src)
+    ref = os.path.join(wd, "ref")
+    w0, errs0, exc0 = run_files(nc, src, ref, opts, feats)
+    outname = rng.choice(["anonymized", "out dir", "zz", "0out"])
+    dst = os.path.join(src, outname)
+    before = fsmon.snapshot(src)
+    w, errs, exc = run_files(nc, src, dst, opts, feats)
+    after = fsmon.snapshot(src)
+    ctx.ev()
+    ctx.count("trees_run")
+    ctx.count("nested_output_runs")
+    tag = "output directory %r inside the input directory, feats=%s" % (outname, "+".join(feats))
+    if exc is not None or errs or exc0 is not None or errs0:
+        ctx.violation(case, "nested-output-run-failed", "%s: %r %r" % (tag, exc or exc0, (errs or errs0)[:2]))
+        return
+    changed = [k for k in before if after.get(k) != before[k] and k != "."]
+    if changed:
+        ctx.violation(case, "input-tree-modified", "%s: %r changed" % (tag, changed[:3]))
+        return
+    got = {os.path.relpath(k, outname): v for k, v in after.items() if k.startswith(outname + os.sep) and v[0] == "file"}
+    want = {os.path.relpath(k, "."): v for k, v in fsmon.snapshot(ref).items() if v[0] == "file"}
+    ctx.count("entry_point_comparisons")
+    if set(got) != set(want):
+        ctx.violation(case, "unexpected-path-written" if set(got) - set(want) else "output-missing",
+                      "%s: written %r, expected %r" % (tag, sorted(set(got) - set(want))[:4], sorted(set(want) - set(got))[:4]))
+        return
+    for k in want:
+        if got[k][2] != want[k][2]:
+            ctx.violation(case, "nested-output-differs", "%s: %s differs from the run into a directory outside the input" % (tag, k))
+            return
+    ctx.distinct(("nested", case["seed"], tuple(feats)))
 
 
 def run(ctx):
